@@ -1,6 +1,202 @@
 import PdeVerif.Json
+import PdeVerif.Model.Solvers
+/-
+Driver handlers of C06: evaluate the stepper models of `PdeVerif.Solvers` at
+* `Rat`            - real test equations, exact,
+* `CQ` (Gaussian rationals) - complex test equations, exact,
+* `Float`          - adaptive stepping (the controller uses `error_rel ** -0.2`).
+-/
 namespace PdeVerif.Drv.C06
-open Lean PdeVerif
+open Lean PdeVerif PdeVerif.Solvers
 
-def handlers : List (String × Handler) := []
+/-- Gaussian rationals: the exact number type for complex-valued runs.  Order and floor look at
+the real part only; they are applied to times and error norms, whose imaginary part is 0. -/
+structure CQ where
+  re : Rat
+  im : Rat
+  deriving Repr
+
+namespace CQ
+instance : Add CQ := ⟨fun x y => ⟨x.re + y.re, x.im + y.im⟩⟩
+instance : Sub CQ := ⟨fun x y => ⟨x.re - y.re, x.im - y.im⟩⟩
+instance : Neg CQ := ⟨fun x => ⟨-x.re, -x.im⟩⟩
+instance : Mul CQ := ⟨fun x y => ⟨x.re * y.re - x.im * y.im, x.re * y.im + x.im * y.re⟩⟩
+instance : Div CQ := ⟨fun x y =>
+  let d := y.re * y.re + y.im * y.im
+  ⟨(x.re * y.re + x.im * y.im) / d, (x.im * y.re - x.re * y.im) / d⟩⟩
+instance : NatCast CQ := ⟨fun n => ⟨(n : Rat), 0⟩⟩
+instance : IntCast CQ := ⟨fun n => ⟨(n : Rat), 0⟩⟩
+instance : LT CQ := ⟨fun x y => x.re < y.re⟩
+instance : LE CQ := ⟨fun x y => x.re ≤ y.re⟩
+instance : DecidableLT CQ := fun x y => inferInstanceAs (Decidable (x.re < y.re))
+instance : DecidableLE CQ := fun x y => inferInstanceAs (Decidable (x.re ≤ y.re))
+instance : HasFloor CQ := ⟨fun x => Rat.floor x.re⟩
+instance : HasNormSq CQ := ⟨fun x => ⟨x.re * x.re + x.im * x.im, 0⟩⟩
+end CQ
+
+/-- a rational within relative 2^-100 of `x` with a power-of-two denominator (answers only:
+the exact iterates have denominators of many thousand digits) -/
+def approxQ (x : Rat) : Rat :=
+  if x.num = 0 then 0 else
+    let e : Int := 100 - ((x.num.natAbs.log2 : Int) - (x.den.log2 : Int))
+    if 0 ≤ e then
+      let p : Nat := 2 ^ e.toNat
+      mkRat (Rat.floor (x * (p : Rat))) p
+    else
+      let p : Nat := 2 ^ (-e).toNat
+      ((Rat.floor (x / (p : Rat)) * (p : Int) : Int) : Rat)
+
+/-- how a number type travels through the line protocol -/
+structure Codec (K : Type) where
+  dec : Json → Except String K
+  enc : K → Json
+  ofQ : Rat → K
+  re : K → Rat
+
+def codecQ : Codec Rat := ⟨getQ, fun x => jQ (approxQ x), id, id⟩
+
+def codecC : Codec CQ :=
+  ⟨fun j => do
+      let l ← getL getQ j
+      match l with
+      | [a, b] => pure ⟨a, b⟩
+      | _ => throw "expected [re, im]",
+   fun x => Json.arr #[jQ (approxQ x.re), jQ (approxQ x.im)],
+   fun q => ⟨q, 0⟩,
+   fun x => x.re⟩
+
+section fixed
+variable {K : Type} [Add K] [Sub K] [Mul K] [Div K] [Neg K] [NatCast K] [IntCast K]
+variable [LT K] [DecidableLT K] [LE K] [DecidableLE K] [HasFloor K] [HasNormSq K]
+
+/-- the single-step map of a named solver on (cells, iteration counts so far) -/
+def stepOf (solver : String) (f : Rate K) (dt : K) (maxiter : Nat) (maxerror α : K) :
+    Except String (List K × List Nat → K → Option (List K × List Nat)) :=
+  match solver with
+  | "euler" => .ok fun s t => some (s.1.map (fun u => eulerStep f dt u t), s.2)
+  | "runge-kutta" => .ok fun s t => some (s.1.map (fun u => rk4Step rk4Tab f dt u t), s.2)
+  | "implicit" => .ok fun s t => (implicitStep f maxiter maxerror dt s.1 t).map (fun r => (r.1, r.2 :: s.2))
+  | "crank-nicolson" => .ok fun s t => (cnStep α f maxiter maxerror dt s.1 t).map (fun r => (r.1, r.2 :: s.2))
+  | _ => .error s!"unknown solver {solver}"
+
+def segJson (C : Codec K) (t : K) (steps : Nat) (us : List K) (iters : List Nat) : Json :=
+  Json.mkObj [("t", jQ (approxQ (C.re t))), ("steps", toJson steps), ("state", Json.arr (us.map C.enc).toArray),
+    ("iters", toJson iters)]
+
+/-- successive stepper calls on the same stepper object -/
+def runFixed (C : Codec K) (j : Json) : Except String Json := do
+  let solver ← fldS j "solver"
+  let backend ← fldS j "backend"
+  let a ← C.dec (← fld j "a")
+  let b ← getL C.dec (← fld j "b")
+  let u0 ← getL C.dec (← fld j "u0")
+  let dt := C.ofQ (← fldQ j "dt")
+  let maxiter ← fldN j "maxiter"
+  let maxerror := C.ofQ (← fldQ j "maxerror")
+  let α := C.ofQ (← fldQ j "alpha")
+  let segs ← getL (getL getQ) (← fld j "segments")
+  let f : Rate K ← match b with
+    | [b0, b1, b2, b3] => pure (linRate a b0 b1 b2 b3)
+    | _ => throw "b must have 4 entries"
+  let mut out : Array Json := #[]
+  let mut err : Json := Json.null
+  if solver == "adams-bashforth" then
+    let T : AB2Tab K := if backend == "numba" then ab2TabNumba else ab2Tab
+    let mut st : AB2State K := ⟨u0, none⟩
+    for sg in segs do
+      match sg with
+      | [ts, te] =>
+        match ab2Stepper T f dt (C.ofQ ts) (C.ofQ te) st with
+        | none => err := Json.str "convergence"; break
+        | some (st', t) =>
+          out := out.push (segJson C t (stepCount dt (C.ofQ ts) (C.ofQ te)) st'.us [])
+          st := st'
+      | _ => throw "segment must be [t_start, t_end]"
+  else
+    let step ← stepOf solver f dt maxiter maxerror α
+    let mut us := u0
+    for sg in segs do
+      match sg with
+      | [ts, te] =>
+        match fixedStepper step dt (C.ofQ ts) (C.ofQ te) (us, []) with
+        | none => err := Json.str "convergence"; break
+        | some ((us', its), t) =>
+          out := out.push (segJson C t (stepCount dt (C.ofQ ts) (C.ofQ te)) us' its.reverse)
+          us := us'
+      | _ => throw "segment must be [t_start, t_end]"
+  pure (Json.mkObj [("segments", Json.arr out), ("error", err)])
+
+end fixed
+
+def fixed (j : Json) : Except String Json := do
+  match (← fldS j "num") with
+  | "Q" => runFixed codecQ j
+  | "C" => runFixed codecC j
+  | m => throw s!"unknown number mode {m}"
+
+/-! adaptive stepping at `Float` -/
+
+def recJson (r : Rec Float) : Json := Json.arr #[jF r.t, jF r.dt, jF r.errRel, toJson r.accepted]
+
+def adaptive (j : Json) : Except String Json := do
+  let solver ← fldS j "solver"
+  let a ← fldF j "a"
+  let b ← fldFs j "b"
+  let u0 ← fldFs j "u0"
+  let dt0 ← fldF j "dt0"
+  let tol ← fldF j "tol"
+  let dtMin ← fldF j "dt_min"
+  let dtMax ← fldF j "dt_max"
+  let fuel ← fldN j "fuel"
+  let segs ← getL (getL getF) (← fld j "segments")
+  let f : Rate Float ← match b with
+    | [b0, b1, b2, b3] => pure (linRate a b0 b1 b2 b3)
+    | _ => throw "b must have 4 entries"
+  let C : Ctl Float := ctlOf tol dtMin dtMax Float.pow Float.isNaN
+  let stepper : List Float → Float → Float → Float → AOut Float ← match solver with
+    | "euler" => pure (eulerAdaptiveStepper C f fuel)
+    | "runge-kutta" => pure (adaptiveStepper C (rkf45Est rkfTab f) fuel)
+    | "richardson" => pure (adaptiveStepper C (eulerRichardson f) fuel)
+    | _ => throw s!"unknown adaptive solver {solver}"
+  let mut out : Array Json := #[]
+  let mut us := u0
+  let mut dt := dt0
+  for sg in segs do
+    match sg with
+    | [ts, te] =>
+      let (status, s) := match stepper us ts te dt with
+        | .done s => ("done", s)
+        | .fuel s => ("fuel", s)
+        | .error .belowMin s => ("below-min", s)
+        | .error .nanBelowMin s => ("nan-below-min", s)
+      out := out.push (Json.mkObj [("status", Json.str status), ("t", jF s.t), ("dt_opt", jF s.dtOpt),
+        ("steps", toJson s.steps), ("state", jFs s.us),
+        ("trace", Json.arr (s.trace.reverse.map recJson).toArray)])
+      if status != "done" then break
+      us := s.us
+      dt := s.dtOpt
+    | _ => throw "segment must be [t_start, t_end]"
+  pure (Json.mkObj [("segments", Json.arr out)])
+
+/-- step count and returned time of `fixed_stepper` at `Float` (the same IEEE operations as the
+code: `max(1, round((t_end - t_start) / dt))`, `(t_start + (steps-1)*dt) + dt`) -/
+def steps (j : Json) : Except String Json := do
+  let dt ← fldF j "dt"
+  let segs ← getL (getL getF) (← fld j "segments")
+  let mut out : Array Json := #[]
+  for sg in segs do
+    match sg with
+    | [ts, te] =>
+      match fixedStepper (fun (s : Unit) (_ : Float) => some s) dt ts te () with
+      | some (_, t) => out := out.push (Json.arr #[toJson (stepCount dt ts te), jF t])
+      | none => throw "unreachable"
+    | _ => throw "segment must be [t_start, t_end]"
+  pure (Json.arr out)
+
+/-- the extracted constants the driver was built with -/
+def constants (_ : Json) : Except String Json :=
+  pure (Json.mkObj (Generated.table.map (fun (n, p, q) => (n, jQ (mkRat p q)))))
+
+def handlers : List (String × Handler) :=
+  [("c06.fixed", fixed), ("c06.adaptive", adaptive), ("c06.steps", steps), ("c06.constants", constants)]
 end PdeVerif.Drv.C06
